@@ -358,8 +358,12 @@ def yield_start(seed, p=0.25):
             f = getattr(f, "__wrapped__", f)
             if f is not None and hasattr(f, "__code__"):
                 codes.add(f.__code__)
-    for n in ("initial_solution", "correct_solution", "solve", "empty_solution"):
-        codes.add(getattr(Task, n).__code__)
+    _models = sys.modules["pyvolutionary.models"]     # (the attribute pyvolutionary.models is shadowed by a star-import)
+    for klass in [Task] + [c for c in vars(_models).values() if isinstance(c, type) and issubclass(c, _models.Variable)]:
+        for f in vars(klass).values():          # every method of Task and of the variable classes (incl. lazily built caches)
+            f = getattr(f, "__wrapped__", f)
+            if hasattr(f, "__code__") and f.__code__.co_filename.startswith(_PVDIR):
+                codes.add(f.__code__)
     for c in codes:
         mon.set_local_events(tool, c, mon.events.LINE)
     st["codes"] = list(codes)
